@@ -4,7 +4,7 @@
 # (quick tier) against it via VERIF_REPO, removes the worktree. Evidence of these runs goes to a scratch directory.
 set -u
 patch="$(realpath "$1")"; shift
-cd /verif
+cd "$(dirname "$0")/.."
 wt=$(mktemp -d /tmp/mutwt.XXXXXX); rmdir "$wt"
 git -C /repo worktree add --detach "$wt" HEAD -q || exit 2
 trap 'git -C /repo worktree remove --force "$wt" >/dev/null 2>&1; git -C /repo worktree prune' EXIT
